@@ -371,13 +371,22 @@ async def settle(clients, quiet=0.6, timeout=30.0):
     return False
 
 
+def log_notes(text):
+    """counted in the evidence, not a verdict: exceptions that ended a background task of the relay without
+    reaching a client (the properties speak of the connection handler, of answers and of other connections)"""
+    out = {}
+    for p in (r"Task exception was never retrieved", r"Task was destroyed but it is pending", r"Traceback \(most recent call last\)"):
+        n = len(re.findall(p, text))
+        if n:
+            out[p[:36]] = n
+    return out
+
+
 def log_problems(text):
     """lines of the server log that show an exception ESCAPING a handler or a dying worker.
     (`log.exception("client loop")` of the relay is the handler doing its job and is not listed.)"""
     pats = [
         r"Exception in ASGI application",
-        r"Task exception was never retrieved",
-        r"Task was destroyed but it is pending",
         r"WORKER TIMEOUT",
         r"Worker \(pid:\d+\) (exited|was sent)",
         r"Worker exiting",
